@@ -22,11 +22,14 @@ import (
 	"k8s.io/apimachinery/pkg/util/intstr"
 
 	extensions "istio.io/api/extensions/v1alpha1"
+	meshconfig "istio.io/api/mesh/v1alpha1"
 	networking "istio.io/api/networking/v1alpha3"
+	networkingv1beta1 "istio.io/api/networking/v1beta1"
 	security "istio.io/api/security/v1beta1"
 	telemetry "istio.io/api/telemetry/v1alpha1"
 	typev1beta1 "istio.io/api/type/v1beta1"
 	"istio.io/istio/pkg/config"
+	"istio.io/istio/pkg/config/mesh"
 	"istio.io/istio/pkg/config/schema/gvk"
 	"istio.io/istio/pkg/ptr"
 	"verifharness/internal/wire"
@@ -44,6 +47,7 @@ type obj struct {
 type meshDesc struct {
 	seed uint64
 	objs []obj
+	mc   *meshconfig.MeshConfig
 }
 
 const rootNS = "istio-system"
@@ -64,6 +68,16 @@ type mgen struct {
 	// bias: number of distinct creation timestamps
 	nTimes int
 	podIP  int
+	scale  int // 1, or 3 for the occasional large mesh
+}
+
+func (g *mgen) upTo(n int) int { return g.r.Intn(n*g.sc() + 1 - g.sc()/2) }
+
+func (g *mgen) sc() int {
+	if g.scale < 1 {
+		return 1
+	}
+	return g.scale
 }
 
 func (g *mgen) when() time.Time {
@@ -197,6 +211,34 @@ func (g *mgen) k8sObjects() {
 			g.hosts = append(g.hosts, k8sHost(name, ns))
 		}
 	}
+	// a second service selecting the pods of `a` (same workload ports behind two services)
+	if g.r.Chance(1, 4) {
+		cip++
+		g.addK8s("k8s-service", "Service/default/a-alt", &corev1.Service{
+			ObjectMeta: metav1.ObjectMeta{Name: "a-alt", Namespace: "default", CreationTimestamp: metav1.NewTime(g.when()), ResourceVersion: "1"},
+			Spec: corev1.ServiceSpec{ClusterIP: fmt.Sprintf("10.0.1.%d", cip), Selector: map[string]string{"app": "a"},
+				Ports: []corev1.ServicePort{{Name: "http-alt", Port: 8000, TargetPort: intstr.FromInt32(8080), Protocol: corev1.ProtocolTCP},
+					{Name: "tcp-alt", Port: 9100, TargetPort: intstr.FromInt32(9000), Protocol: corev1.ProtocolTCP}}},
+		})
+		g.addK8s("endpointslice", "EndpointSlice/default/a-alt-0", &discoveryv1.EndpointSlice{
+			ObjectMeta:  metav1.ObjectMeta{Name: "a-alt-0", Namespace: "default", CreationTimestamp: metav1.NewTime(g.when()), ResourceVersion: "1", Labels: map[string]string{discoveryv1.LabelServiceName: "a-alt"}},
+			AddressType: discoveryv1.AddressTypeIPv4,
+			Endpoints: []discoveryv1.Endpoint{{Addresses: []string{sidecarIP}, Conditions: discoveryv1.EndpointConditions{Ready: ptr.Of(true)},
+				TargetRef: &corev1.ObjectReference{Kind: "Pod", Name: "a-0", Namespace: "default"}}},
+			Ports: []discoveryv1.EndpointPort{{Name: ptr.Of("http-alt"), Port: ptr.Of(int32(8080)), Protocol: ptr.Of(corev1.ProtocolTCP)},
+				{Name: ptr.Of("tcp-alt"), Port: ptr.Of(int32(9000)), Protocol: ptr.Of(corev1.ProtocolTCP)}},
+		})
+		g.hosts = append(g.hosts, k8sHost("a-alt", "default"))
+	}
+	// an ExternalName service (an alias)
+	if g.r.Chance(1, 5) {
+		g.addK8s("k8s-externalname", "Service/default/alias", &corev1.Service{
+			ObjectMeta: metav1.ObjectMeta{Name: "alias", Namespace: "default", CreationTimestamp: metav1.NewTime(g.when()), ResourceVersion: "1"},
+			Spec: corev1.ServiceSpec{Type: corev1.ServiceTypeExternalName, ExternalName: g.pick([]string{"a.default.svc.cluster.local", "ext1.example.com"}),
+				Ports: []corev1.ServicePort{{Name: "http", Port: 80, Protocol: corev1.ProtocolTCP}}},
+		})
+		g.hosts = append(g.hosts, k8sHost("alias", "default"))
+	}
 }
 
 // ---------------------------------------------------------------- ServiceEntry
@@ -216,7 +258,7 @@ func sePorts(r *wire.Rng) []*networking.ServicePort {
 }
 
 func (g *mgen) serviceEntries() {
-	n := g.r.Intn(5)
+	n := g.upTo(4)
 	for i := 0; i < n; i++ {
 		ns := g.pick(meshNamespaces)
 		nh := 1 + g.r.Intn(4)
@@ -419,7 +461,7 @@ func (g *mgen) virtualServices(gateways []string) {
 	if len(g.hosts) == 0 {
 		return
 	}
-	n := g.r.Intn(6)
+	n := g.upTo(5)
 	for i := 0; i < n; i++ {
 		ns := g.pick(meshNamespaces)
 		vs := &networking.VirtualService{Hosts: g.someHosts(1, 2)}
@@ -440,6 +482,12 @@ func (g *mgen) virtualServices(gateways []string) {
 		}
 		for k, m := 0, 1+g.r.Intn(3); k < m; k++ {
 			vs.Http = append(vs.Http, g.httpRoute(g.hosts, gw))
+		}
+		if gw && g.r.Chance(1, 3) {
+			vs.Tls = append(vs.Tls, &networking.TLSRoute{
+				Match: []*networking.TLSMatchAttributes{{Port: 443, SniHosts: []string{"a.example.com", "b.example.com"}}},
+				Route: []*networking.RouteDestination{{Destination: g.destination(g.hosts), Weight: 50}, {Destination: g.destination(g.hosts), Weight: 50}},
+			})
 		}
 		if g.r.Chance(1, 4) {
 			vs.Tcp = []*networking.TCPRoute{{
@@ -525,7 +573,7 @@ func (g *mgen) destinationRules() {
 	if len(g.hosts) == 0 {
 		return
 	}
-	n := g.r.Intn(7)
+	n := g.upTo(6)
 	for i := 0; i < n; i++ {
 		ns := g.pick(meshNamespaces)
 		h := g.pick(g.hosts)
@@ -638,6 +686,11 @@ func (g *mgen) gateways() []string {
 			case 2:
 				srv.Port = &networking.Port{Number: 443, Name: "https-" + strconv.Itoa(s), Protocol: "HTTPS"}
 				srv.Tls = &networking.ServerTLSSettings{Mode: networking.ServerTLSSettings_SIMPLE, CredentialName: "cred-" + strconv.Itoa(g.r.Intn(2))}
+				if g.r.Chance(1, 3) {
+					srv.Port.Protocol = "TLS"
+					srv.Tls = &networking.ServerTLSSettings{Mode: networking.ServerTLSSettings_PASSTHROUGH}
+					srv.Hosts = []string{"a.example.com", "b.example.com"}
+				}
 			default:
 				srv.Port = &networking.Port{Number: 9000, Name: "tcp-" + strconv.Itoa(s), Protocol: "TCP"}
 			}
@@ -801,6 +854,14 @@ func (g *mgen) extensions() {
 		}
 		g.addCfg("wasmplugin", g.meta(gvk.WasmPlugin, "wp"+strconv.Itoa(i), ns), wp)
 	}
+	for i, n := 0, g.r.Intn(3); i < n; i++ {
+		ns := g.pick(meshNamespaces)
+		pc := &networkingv1beta1.ProxyConfig{Concurrency: wrapperspb.Int32(int32(1 + g.r.Intn(3))), EnvironmentVariables: map[string]string{"A": "1", "B": "2", "C": "3"}}
+		if g.r.Chance(1, 2) {
+			pc.Selector = &typev1beta1.WorkloadSelector{MatchLabels: map[string]string{"app": "a"}}
+		}
+		g.addCfg("proxyconfig", g.meta(gvk.ProxyConfig, "pc"+strconv.Itoa(i), ns), pc)
+	}
 }
 
 // buildMesh derives the mesh of a seed. `size` scales nothing yet beyond the generator's own
@@ -812,6 +873,9 @@ func buildMesh(seed uint64) *meshDesc {
 	} else if g.r.Chance(1, 4) {
 		g.nTimes = 5
 	}
+	if g.r.Chance(1, 12) {
+		g.scale = 3
+	}
 	g.k8sObjects()
 	g.serviceEntries()
 	gws := g.gateways()
@@ -820,5 +884,40 @@ func buildMesh(seed uint64) *meshDesc {
 	g.sidecars()
 	g.security()
 	g.extensions()
-	return &meshDesc{seed: seed, objs: g.objs}
+	return &meshDesc{seed: seed, objs: g.objs, mc: g.meshConfig()}
+}
+
+// meshConfig varies the mesh-wide settings that steer generation.
+func (g *mgen) meshConfig() *meshconfig.MeshConfig {
+	m := mesh.DefaultMeshConfig()
+	if g.r.Chance(1, 4) {
+		m.OutboundTrafficPolicy = &meshconfig.MeshConfig_OutboundTrafficPolicy{Mode: meshconfig.MeshConfig_OutboundTrafficPolicy_REGISTRY_ONLY}
+	}
+	if g.r.Chance(1, 5) {
+		m.EnableAutoMtls = wrapperspb.Bool(false)
+	}
+	if g.r.Chance(1, 4) {
+		m.AccessLogFile = "/dev/stdout"
+	}
+	if g.r.Chance(1, 6) {
+		m.DefaultServiceExportTo = []string{"."}
+	}
+	if g.r.Chance(1, 6) {
+		m.DefaultVirtualServiceExportTo = []string{"."}
+	}
+	if g.r.Chance(1, 6) {
+		m.DefaultDestinationRuleExportTo = []string{"."}
+	}
+	if g.r.Chance(1, 5) {
+		m.LocalityLbSetting = &networking.LocalityLoadBalancerSetting{Enabled: wrapperspb.Bool(true),
+			Failover: []*networking.LocalityLoadBalancerSetting_Failover{{From: "r1", To: "r2"}, {From: "r2", To: "r1"}}}
+	}
+	if g.r.Chance(1, 5) {
+		m.InboundTrafficPolicy = &meshconfig.MeshConfig_InboundTrafficPolicy{Mode: meshconfig.MeshConfig_InboundTrafficPolicy_LOCALHOST}
+	}
+	if g.r.Chance(1, 6) {
+		m.ServiceSettings = []*meshconfig.MeshConfig_ServiceSettings{{Settings: &meshconfig.MeshConfig_ServiceSettings_Settings{ClusterLocal: true},
+			Hosts: []string{"*.ns1.svc.cluster.local", "b.default.svc.cluster.local"}}}
+	}
+	return m
 }
